@@ -525,6 +525,8 @@ def topological_ordering(A):
         If the given graph is not a DAG.
 
     """
+    # Work on the zero pattern only: weights may be negative or cancel
+    A = (A != 0).astype(int)
     # Check that there are no undirected edges
     if only_undirected(A).sum() > 0:
         raise ValueError("The given graph is not a DAG")
